@@ -794,6 +794,11 @@ private:
     std::size_t offset = 0;
     while (offset < localBuffer.size())
     {
+      // Once the connection has been closed or failed (CLOSE received,
+      // disconnect() from handleDataFrame or a user callback) whatever else the
+      // peer sent is dropped — the engine keeps delivering until the close runs.
+      if (_state.load() != WebSocketState::CONNECTED) return;
+
       core::BufferView view(localBuffer.data() + offset,
                             localBuffer.size() - offset);
       std::size_t consumed = 0;
@@ -890,9 +895,20 @@ private:
     WsOpcode opcode = WsOpcode::CONTINUATION;
     std::vector<std::uint8_t> payload;
     bool deliver = false;
+    bool tooLarge = false;
     {
       std::lock_guard<std::mutex> lock(_dataMutex);
-      if (isStart)
+      // Test the limit BEFORE appending, so the reassembly buffer never grows
+      // past maxFrameSize (subtraction form: the sum cannot wrap).
+      const std::size_t buffered = isStart ? 0 : _fragmentBuffer.size();
+      if (buffered > _options.maxFrameSize ||
+          frame.payload.size() > _options.maxFrameSize - buffered)
+      {
+        tooLarge = true;
+        _fragmentBuffer.clear();
+        _fragmentOpcode = WsOpcode::CONTINUATION;
+      }
+      else if (isStart)
       {
         _fragmentOpcode = frame.opcode;
         _fragmentBuffer = frame.payload;
@@ -903,7 +919,7 @@ private:
                                frame.payload.begin(), frame.payload.end());
       }
 
-      if (frame.fin)
+      if (!tooLarge && frame.fin)
       {
         opcode = _fragmentOpcode;
         payload = std::move(_fragmentBuffer);
@@ -913,10 +929,29 @@ private:
       }
     }
 
+    // Callbacks and disconnect() run outside _dataMutex.
+    if (tooLarge)
+    {
+      if (_onError) _onError("Message exceeded maxFrameSize");
+      disconnect(1009, "Message Too Big");
+      return;
+    }
+
     if (deliver)
     {
       if (opcode == WsOpcode::TEXT)
       {
+        // A text message that is not valid UTF-8 fails the connection (1007,
+        // RFC 6455 §8.1), as in WebSocketServer::handleDataFrame.
+        WebSocketFrame temp;
+        temp.payload = payload;
+        if (!temp.isValidUtf8())
+        {
+          if (_onError) _onError("Invalid UTF-8 in text message");
+          disconnect(1007, "Invalid UTF-8");
+          return;
+        }
+
         if (_onTextMessage)
         {
           std::string text(payload.begin(), payload.end());
